@@ -56,6 +56,12 @@ def run(rep):
         dict(name="C09_continue", configs=cfgs, acts=["grow_set", "grow", "reap_partial", "grow_missing", "reap_default", "reload"],
              max_steps=5, mode="sim", num=500 if q else 6000, check=False),
     ]
+    # other constants are sown in the middle of a campaign, by the session's handle, while results (and an earlier partial reap through
+    # another handle) exist: every later reap must hand out, batch by batch, what the result files hold now
+    runs.append(dict(name="C09_reconst", configs=[crop.mk([4], bmode="size", bval=2), crop.mk([5], bmode="count", bval=3, shufSow=1),
+                                                  crop.mk([3], bmode="none")],
+                     acts=["grow", "grow_set", "const_mid", "resow", "reap_partial", "reap_default"], max_steps=7, mode="sim",
+                     num=400 if q else 4000, need=["DoChangeConstMid", "DoReSow"]))
     crop.drive(rep, runs, claims=lambda tag: tag in CLAIMS)
     crop.parallel_grow_cases(rep, 2 if q else 6, partial=True)
     relayout_scenario(rep)
